@@ -19,7 +19,7 @@ AXIOMS_OK = []
 RUN_MODULE = "Run.C03run Lang.PrinterModel"
 AGREE = "agree_C03"
 CASE_TYPE = "case_C03"
-SHARD = 150
+SHARD = 60
 LEVEL_NOTE = ("Theorems are about the Gallina model Lang/PrinterModel.v of lang/printer.py (every "
               "print_* method, _join/_wrap/_indent/_block, _block_string, json-style quoting) and about "
               "the specification's string semantics (Spec/PrinterSpec.v: StringValue escapes, "
